@@ -288,7 +288,8 @@ def rule_N4(ctx):
                 elif isinstance(base, ast.Name) and base.id in m.modglobals[f.mod] and base.id not in fa.final_env:
                     writes.append((x, 'write into a module-level container'))
         for x, what in writes:
-            if ctx.rk(root.key) in GLOBAL_WRITERS:
+            is_setter = root.cls in ('Options', '_MyModuleType') and (root.key.endswith('@setter') or root.name in ('__init__', '__new__'))
+            if ctx.rk(root.key) in GLOBAL_WRITERS or is_setter:
                 r.ok(f"{f.key}:{norm(x)}", reason=True)
             else:
                 r.fail(f.key, x, f"{what} in a library function that is not one of the option/registry setters: the "
@@ -297,10 +298,22 @@ def rule_N4(ctx):
             r.ok(f.key, trivial=True)
     # the options object holds no state beyond its four settings
     opt = m.classes['Options']
+    # a setting = a property with a setter (stored as _name) or a plain public attribute initialised in __init__
+    fields = set()
+    for pname, (g, st) in opt.props.items():
+        if st is not None:
+            fields |= {pname, '_' + pname}
+    init = opt.methods.get('__init__')
+    if init is not None:
+        for x in own_walk(init.node):
+            if isinstance(x, ast.Attribute) and isinstance(x.ctx, ast.Store) and isinstance(x.value, ast.Name) and x.value.id == 'self' \
+                    and not x.attr.startswith('_'):
+                fields.add(x.attr)
+    OPTIONS_FIELDS_LOCAL = fields or OPTIONS_FIELDS
     for f in list(opt.methods.values()) + [p[1] for p in opt.props.values() if p[1] is not None and not isinstance(p[1], str)]:
         for x in own_walk(f.node):
             if isinstance(x, ast.Attribute) and isinstance(x.ctx, ast.Store) and isinstance(x.value, ast.Name) and x.value.id == 'self':
-                if x.attr not in OPTIONS_FIELDS:
+                if x.attr not in OPTIONS_FIELDS_LOCAL:
                     r.fail(f.key, x, 'the options singleton acquires state other than its settings; setting an option back '
                            'may not restore earlier behaviour', loc=f.loc(x))
                 else:
